@@ -165,6 +165,7 @@ class Engine:
     def __init__(self):
         self.runs = 0
         self._crash_points = {}
+        self._prep_error = {}
 
     # -- runner interface ----------------------------------------------------------------------
     def configs(self, tier, prop):
@@ -951,7 +952,8 @@ class Engine:
         world.late = {}
         if pre:
             # an older, complete cache file exists; then the source is edited, so the next call re-writes it
-            procs.ApiProcess(LABELS[0]).transfer_model(world.mdir, model, world.options(0, "cache"))
+            with fsim.FsSeam(sandbox, None, clock):  # (under the seam, so that the file is stamped by the simulated clock)
+                procs.ApiProcess(LABELS[0]).transfer_model(world.mdir, model, world.options(0, "cache"))
             clock.advance(10_000_000)
             k = "model:" + next(iter(world.ent["model"]))
             vals = dict(world.files[k][0])
@@ -976,6 +978,12 @@ class Engine:
             fs = fsim.FsSeam(sandbox, None, clock)
             with util.capture_pymoca_log(), fs:
                 procs.ApiProcess(LABELS[0]).transfer_model(world.mdir, model, world.options(0, "cache"))
+        except Exception as e:
+            # the plain, uninterrupted call that is only meant to record the trace fails on the tree under test: there is
+            # nothing to enumerate; the single run of this config reports what happened
+            self._prep_error[config] = (repr(e)[:300], util.exc_site(e))
+            self._crash_points[config] = [[0, 0]]
+            return self._crash_points[config]
         finally:
             core.set_clock(None)
         pts = []
@@ -1006,6 +1014,12 @@ class Engine:
         core.set_clock(clock)
         log = core.EventLog()
         counts = {}
+        if config in self._prep_error:
+            err = self._prep_error[config]
+            return self._result(plan, log, clock, counts, {}, (
+                "exception", err[1], ["crash", "no_fault", "pre_existing" if int(pre) else "fresh"],
+                "transfer_model without any fault (%s) raised %s" % (
+                    "older cache file, source edited" if int(pre) else "fresh folder", err[0])), 0)
         world = self._crash_world(sandbox, clock, model, int(pre), 12345)
         fs = fsim.FsSeam(sandbox, None, clock)
         fs.crash_at = (site, nbytes)
@@ -1053,11 +1067,15 @@ class Engine:
         core.set_clock(clock)
         try:
             world = self._crash_world(sandbox, clock, model, 0, 12345)
-            with util.capture_pymoca_log():
+            with util.capture_pymoca_log(), fsim.FsSeam(sandbox, None, clock):
                 procs.ApiProcess(LABELS[0]).transfer_model(world.mdir, model, world.options(0, "cache"))
             size = os.path.getsize(world.cache_file)
             with fsim.REAL_OPEN(world.cache_file, "rb") as f:
                 data = f.read()
+        except Exception as e:
+            self._prep_error[config] = (repr(e)[:300], util.exc_site(e))
+            self._crash_points[config] = [0]
+            return self._crash_points[config]
         finally:
             core.set_clock(None)
         pts = list(range(size))
@@ -1075,8 +1093,13 @@ class Engine:
                                 special.add(b)
             except Exception:
                 pass
+            # a prefix that happens to END like a complete pickle (its last byte is the STOP opcode '.', which also occurs
+            # inside dotted names, version strings and floats), and prefixes ending in other bytes a loader might look at
             rng = random.Random(77)
-            pts = sorted(special | set(rng.sample(pts, 130)))
+            for byte in (0x2E, 0x00, 0x0A, 0x94):
+                after = [i + 1 for i, b in enumerate(data) if b == byte and i + 1 < size]
+                special.update(rng.sample(after, min(len(after), 25)))
+            pts = sorted(special | set(rng.sample(pts, 110)))
         self._crash_points[config] = pts
         return pts
 
@@ -1089,9 +1112,14 @@ class Engine:
         clock = core.SimClock()
         core.set_clock(clock)
         log = core.EventLog()
+        if config in self._prep_error:
+            err = self._prep_error[config]
+            return self._result(plan, log, clock, {}, {}, (
+                "exception", err[1], ["truncated", "no_fault"],
+                "transfer_model without any fault (fresh folder) raised %s" % err[0]), 0)
         world = self._crash_world(sandbox, clock, model, 0, 12345)
         two_gen = plan["vals_seed"] % 3 == 0
-        with util.capture_pymoca_log():
+        with util.capture_pymoca_log(), fsim.FsSeam(sandbox, None, clock):
             procs.ApiProcess(LABELS[0]).transfer_model(world.mdir, model, world.options(0, "cache"))
             if two_gen:
                 # the damaged file is the second generation of the cache: built, source edited, built again.  Whatever
